@@ -86,6 +86,90 @@ def gen_defs(rnd, macros, n):
     return out
 
 
+class HFile:
+    """a generated macro header: physical text + the logical lines the specification sees"""
+
+    def __init__(self, vec):
+        self.vec, self.text, self.items = vec, [], []
+
+    def line(self, d, phys, n="", logical=None):
+        self.text.extend(phys)
+        toks = cpptok.tokens(logical if logical is not None else " ".join(phys)) if d == "text" else []
+        self.items.append({"d": d, "n": n, "toks": toks})
+
+
+def gen_define(rnd, f, tag, shape=None):
+    nm = "fM%d" % rnd.randint(0, 9)
+    params = rnd.choice(["", "(X)", "(X, Y)"])
+    body = ["(%s_%d" % (tag, rnd.randint(0, 999)), "+ X" if "X" in params else "+ 1", "- Y)" if "Y" in params else "- 2)"]
+    shape = shape or rnd.choice(["one", "one", "cont", "cont-trail", "cont3"])
+    head = "#define %s%s" % (nm, params)
+    if shape == "one":
+        f.line("text", ["%s %s" % (head, " ".join(body))])
+    elif shape == "cont":
+        f.line("text", [head + " \\", "    " + " ".join(body)], logical=head + " " + " ".join(body))
+    elif shape == "cont-trail":        # blanks behind the backslash (tolerated by the clean-up and by gcc)
+        f.line("text", [head + " \\  ", "    " + " ".join(body)], logical=head + " " + " ".join(body))
+    elif shape == "cont3":
+        f.line("text", [head + " \\", "    " + body[0] + " \\", "        " + body[1] + " \\", "    " + body[2]], logical=head + " " + " ".join(body))
+    elif shape == "cont-col0":         # the continuation line starts in column 0 (the splice must not glue two tokens)
+        f.line("text", [head + " (a_1 \\", "b_2 " + body[1] + " " + body[2]], logical=head + " (a_1 b_2 " + body[1] + " " + body[2])
+    elif shape == "cont-star":         # the continuation line starts with the multiplication sign
+        f.line("text", [head + " (X \\", "    * 3)"], logical=head + " (X * 3)")
+
+
+def gen_cleanset(rnd, i, special=None):
+    files = {}
+    for key, vec in (("inc", False), ("h", True if False else False), ("mmvec", True)):
+        f = HFile(vec)
+        if rnd.random() < 0.7:
+            f.line("comment", ["// Copyright (c) generated %d" % i, "//"])
+        if rnd.random() < 0.5:
+            f.line("comment", ["/*", " * a block comment", " * over several lines", " */"])
+        guard = key != "inc" or rnd.random() < 0.3
+        if guard:
+            g = "GEN_%s_%d_H" % (key.upper(), i)
+            f.line("ifndef", ["#ifndef " + g], n=g)
+            f.line("text", ["#define " + g])
+            f.line("blank", [""])
+            for inc in range(rnd.randint(0, 2)):
+                f.line("include", ['#include "x%d.h"' % inc])
+        for j in range(rnd.randint(3, 9)):
+            k = rnd.random()
+            if k < 0.35:
+                gen_define(rnd, f, "top")
+            elif k < 0.45:
+                f.line("blank", [""])
+            elif k < 0.55:
+                f.line("comment", [rnd.choice(["// note %d" % j, "/* note %d */" % j, "   // indented note"])])
+            elif k < 0.85:
+                name = "QEMU_GENERATE" if k < 0.75 else "CONFIG_USER_ONLY"
+                f.line("ifdef", ["#ifdef " + name], n=name)
+                for _ in range(rnd.randint(1, 2)):
+                    gen_define(rnd, f, "then")
+                if rnd.random() < 0.6:
+                    f.line("else", ["#else"])
+                    for _ in range(rnd.randint(1, 2)):
+                        gen_define(rnd, f, "else")
+                f.line("endif", ["#endif"])
+            elif k < 0.93:
+                f.line("ifdef", ["#ifdef FIXME"], n="FIXME")
+                gen_define(rnd, f, "fixme")
+                f.line("else", ["#else"])
+                gen_define(rnd, f, "nofixme")
+                f.line("endif", ["#endif"])
+            else:
+                f.line("ifndef", ["#ifndef QEMU_GENERATE"], n="QEMU_GENERATE")
+                gen_define(rnd, f, "noqemu")
+                f.line("endif", ["#endif"])
+        if special and key == "h":
+            gen_define(rnd, f, "special", special)
+        if guard:
+            f.line("endif", ["#endif"])
+        files[key] = f
+    return files
+
+
 def gen_patchsets(rnd, n):
     names = ["fA", "fB", "fC", "fD", "gE"]
     out = []
@@ -144,7 +228,11 @@ def run(ctx):
         gen_defs_lines = gen_defs(rnd, macros, 120 if ctx.tier == "quick" else 1600)
         import time
         t0 = time.time()
-        out, err = drive({"strip": strip_texts, "patchsets": patchsets, "regenerate": True, "extra_shortcode": gen_defs_lines}, scratch)
+        ncl = 60 if ctx.tier == "quick" else 600
+        cleansets = [gen_cleanset(rnd, i) for i in range(ncl)]
+        cleansets += [gen_cleanset(rnd, ncl + i, special=sp) for i, sp in enumerate(["cont-col0", "cont-star"] * 2)]
+        out, err = drive({"strip": strip_texts, "patchsets": patchsets, "regenerate": True, "extra_shortcode": gen_defs_lines,
+                          "cleansets": [{k: "\n".join(f.text) + "\n" for k, f in cs.items()} for cs in cleansets]}, scratch)
         if out is None:
             ctx.violation("the preprocessing functions cannot be driven: " + err, {"kind": "driver"})
             return ctx.finish("model_checking", {"states": 1, "transitions": 1, "traces_validated_against_impl": 0, "samples": ["driver failed"]})
@@ -203,6 +291,15 @@ def run(ctx):
                 continue
             items.append({"id": "patch-gen%d" % i, "kind": "patch", "defs": deflist(ps["macros"]), "patches": patch_deflist(ps["patches"]),
                           "res": r["res"], "set": ps})
+        # (3b) generated macro header files through cleanup_macros
+        for i, (cs, r) in enumerate(zip(cleansets, out.get("cleansets", []))):
+            text = {k: "\n".join(f.text) for k, f in cs.items()}
+            if not r["ok"]:
+                ctx.violation("cleanup_macros raised %s on generated header files" % r["exc"], {"kind": "clean-raise", "files": text})
+                continue
+            res = [t for t in (cpptok.tokens(l) for l in r["res"]) if t]
+            items.append({"id": "clean-%d" % i, "kind": "clean", "res": res, "text": json.dumps(text),
+                          "files": [{"vec": cs[k].vec, "items": cs[k].items} for k in ("inc", "h", "mmvec")]})
         # (4) regeneration reproduces the bundled resolved file (modulo #line directives)
         if "regen" in out:
             def body_lines(t):
@@ -244,8 +341,15 @@ def run(ctx):
             seen.add(rid)
             it = byid.get(rid, {})
             f = None
+            import re as _re
             for kf in ctx.findings_for("cpp"):
-                if kf.get("kind_of_item") == it.get("kind") and kf.get("pattern", "") in (it.get("text") or json.dumps(it.get("src", ""))):
+                if kf.get("kind_of_item") != it.get("kind"):
+                    continue
+                # keyed by the failing input (regular expression on the generated text) AND by the failure itself: the listed
+                # finding only loses a token boundary, so expected and observed line must have the same concatenation
+                v_ = rep["v"]
+                same_glue = isinstance(v_.get("exp"), list) and isinstance(v_.get("got"), list) and "".join(v_["exp"]) == "".join(v_["got"])
+                if kf.get("text_regex") and _re.search(kf["text_regex"], json.loads(it["text"])["h"] if it.get("kind") == "clean" else (it.get("text") or "")) and same_glue:
                     f = kf
             if f:
                 ctx.note_known(f, (it.get("text") or rid)[:100])
